@@ -59,6 +59,9 @@ const KINDS: &[Kind] = &[
     Kind { name: "type: field of imported int", body: &["x := @NS@.exp_q.nofield"], top: &[], either: false },
     Kind { name: "from-import of a missing name", body: &[], top: &["from @NS@ use (nope_q)"], either: false },
     Kind { name: "from-import colliding with a definition", body: &[], top: &["from @NS@ use (exp_q)", "exp_q :: 3"], either: true },
+    // the same name imported from two different modules: the duplicate belongs to the importing file
+    Kind { name: "one name from-imported from two modules", body: &[], top: &["from @NS@ use (exp_q)", "from @NS2@ use (exp_q)"], either: true },
+    Kind { name: "one alias for names from-imported from two modules", body: &[], top: &["from @NS@ use (exp_q as al_q)", "from @NS2@ use (lit2_q as al_q)"], either: true },
 ];
 
 const NS_EXPORTS: &str = "exp_q :: 7\nlit2_q :: fn a: int -> int do\n    a\nend\nHB_q :: blob {\n    f: int,\n}\n";
@@ -120,11 +123,15 @@ struct Built {
 fn build(rng: &mut Rng, kind: &Kind, shape: Shape, where_: usize) -> Built {
     // where_: 0 = main file, 1 = first import, 2 = a later import
     let uses_ns = kind.body.iter().chain(kind.top.iter()).any(|l| l.contains("@NS@"));
-    let nfiles = (1 + where_.max(rng.below(3))).max(if uses_ns { 2 } else { 1 });
+    let uses_ns2 = kind.body.iter().chain(kind.top.iter()).any(|l| l.contains("@NS2@"));
+    let nfiles = (1 + where_.max(rng.below(3))).max(if uses_ns2 { 3 } else if uses_ns { 2 } else { 1 });
     let names = ["main.sy", "first.sy", "later.sy"];
     // the other namespace: `first` for a plant in main, `main` otherwise
     let ns_file = if where_ == 0 { 1 } else { 0 };
     let ns_name = names[ns_file].trim_end_matches(".sy");
+    // a second other namespace: the file that is neither the planted one nor the first other one
+    let ns2_file = (0..3).find(|i| *i != where_ && *i != ns_file).unwrap_or(2);
+    let ns2_name = names[ns2_file].trim_end_matches(".sy");
     let ind = if shape == Shape::Tabs || (shape == Shape::Mixed && rng.chance(1, 2)) { "\t" } else { "    " };
     let mut files = Files::new();
     let mut uid = 0u32;
@@ -141,7 +148,7 @@ fn build(rng: &mut Rng, kind: &Kind, shape: Shape, where_: usize) -> Built {
             t.push_str(&format!("lit_q :: fn a: int -> int do\n{}a\nend\n", ind));
             t.push_str(&format!("lit3_q :: fn a: int, b: int, c: int -> int do\n{}a\nend\n", ind));
         }
-        if uses_ns && fi == ns_file {
+        if (uses_ns && fi == ns_file) || (uses_ns2 && fi == ns2_file) {
             t.push_str(NS_EXPORTS);
         }
         if fi == where_ {
@@ -150,7 +157,7 @@ fn build(rng: &mut Rng, kind: &Kind, shape: Shape, where_: usize) -> Built {
                     if kind.either || k == kind.top.len() - 1 {
                         lines.push(t.matches('\n').count() + 1);
                     }
-                    t.push_str(&l.replace("@NS@", ns_name));
+                    t.push_str(&l.replace("@NS2@", ns2_name).replace("@NS@", ns_name));
                     t.push('\n');
                     if k + 1 < kind.top.len() {
                         filler_top(rng, shape, &mut uid, &mut t);
@@ -171,7 +178,7 @@ fn build(rng: &mut Rng, kind: &Kind, shape: Shape, where_: usize) -> Built {
                     }
                     // `lit_q` / `lit3_q` live in main
                     let l = if fi != 0 { l.replace("lit_q(", "main.lit_q(").replace("lit3_q(", "main.lit3_q(").replace("lit3_q'", "main.lit3_q'") } else { l.to_string() };
-                    let l = l.replace("@NS@", ns_name).replace("@@", "");
+                    let l = l.replace("@NS2@", ns2_name).replace("@NS@", ns_name).replace("@@", "");
                     let l = l.lines().collect::<Vec<_>>().join(&format!("\n{}", ind));
                     t.push_str(&format!("{}{}\n", ind, l));
                     if k + 1 < kind.body.len() {
@@ -272,7 +279,7 @@ impl Check for C15 {
         Finish {
             level: "exploration",
             rule: format!(
-                "one local error of {} kinds (syntax x9, unresolved name x2, duplicate global, assignment to constant, literal type mismatches x4, break outside loop, conflict marker, 5 multi-line calls whose offending argument is on a continuation line, 11 constructs that mention another file's namespace: unresolved/mistyped qualified accesses, namespace as value, from-imports) is planted at a known line of the main file, the first or a later imported file; the rest of the project is valid text of one of {} shapes (plain ASCII, non-ASCII comments/strings, string literals spanning lines, CRLF, tabs, 1500-3000 character lines, runs of blank lines, mixed). Oracle: file and span.line_start of the first returned error equal the planted file and line (either definition line for duplicates). Non-trivial & distinct: (kind, file position, shape, instance).",
+                "one local error of {} kinds (syntax x9, unresolved name x2, duplicate global, assignment to constant, literal type mismatches x4, break outside loop, conflict marker, 5 multi-line calls whose offending argument is on a continuation line, 13 constructs that mention another file's namespace: unresolved/mistyped qualified accesses, namespace as value, from-imports) is planted at a known line of the main file, the first or a later imported file; the rest of the project is valid text of one of {} shapes (plain ASCII, non-ASCII comments/strings, string literals spanning lines, CRLF, tabs, 1500-3000 character lines, runs of blank lines, mixed). Oracle: file and span.line_start of the first returned error equal the planted file and line (either definition line for duplicates). Non-trivial & distinct: (kind, file position, shape, instance).",
                 KINDS.len(),
                 SHAPES.len()
             ),
